@@ -1,6 +1,7 @@
 package roothash
 
 import (
+	"errors"
 	"fmt"
 	"math"
 
@@ -51,6 +52,11 @@ func processLivenessStatistics(ctx *tmapi.Context, epoch beacon.EpochTime, rtSta
 		}
 
 		status, err := regState.NodeStatus(ctx, n.PublicKey)
+		if errors.Is(err, registry.ErrNoSuchNode) {
+			// The node has expired and was already removed from the registry (e.g. when
+			// the debonding interval is zero), there is nothing left to penalize.
+			continue
+		}
 		if err != nil {
 			return fmt.Errorf("failed to retrieve status for node %s: %w", n.PublicKey, err)
 		}
